@@ -68,6 +68,24 @@ func escaperSummary(p *eng.Prog, fn *ssa.Function, cache map[*ssa.Function]int) 
 			}
 		}
 	})
+	// order matters: escaping backslashes AFTER pipes doubles the backslash that was inserted in
+	// front of each pipe, which un-escapes the pipe again
+	eng.Instrs(fn, false, func(in ssa.Instruction) {
+		call, ok := in.(*ssa.Call)
+		if !ok || eng.CalleeName(call) != "strings.ReplaceAll" || len(call.Call.Args) != 3 {
+			return
+		}
+		if old, ok := eng.ConstString(call.Call.Args[1]); !ok || old != "\\" {
+			return
+		}
+		for v := range eng.Slice(call.Call.Args[0], func(*ssa.Call) bool { return true }) {
+			if prev, ok := v.(*ssa.Call); ok && prev != call && eng.CalleeName(prev) == "strings.ReplaceAll" {
+				if o, ok := eng.ConstString(prev.Call.Args[1]); ok && o == "|" {
+					got &^= escPipe
+				}
+			}
+		}
+	})
 	cache[fn] = got
 	return got
 }
@@ -157,6 +175,9 @@ func ruleCellEscape(c *eng.Ctx) {
 					case cn == "strings.ReplaceAll" && len(x.Call.Args) == 3 && x.Call.Args[0] == v:
 						ns := st
 						if old, ok := eng.ConstString(x.Call.Args[1]); ok {
+							if old == "\\" {
+								ns &^= escPipe // doubles the backslash in front of an already escaped pipe
+							}
 							if old == "|" {
 								ns |= escPipe
 							}
